@@ -84,7 +84,9 @@ def shard(args):
             out["failures"][f"{label}:{err}"] = out["failures"].get(f"{label}:{err}", 0) + 1
             if st == "ok":
                 # the edit did not fail after all (e.g. huge capacity): treat as an ordinary edit
-                ok = compare(live, f"after {label}", spec, ops, out, f"C15:accepted-edit-stale:{label}")
+                # … unless an earlier failure of this history was recovered from: then the acceptance itself is suspect
+                ok = compare(live, f"after {label}", spec, ops, out,
+                             f"C15:accepted-edit-stale:{label}" if r == 0 else f"C15:failing-edit-accepted-after-recovery:{label}")
                 if not ok:
                     break
                 continue
@@ -136,7 +138,14 @@ def shard(args):
                     ops.append(op)
                     if st4 == "ok":
                         ok = compare(live, f"later edit {eo.op_label(op)} after {label} + revert", spec, ops, out, f"C15:later-edit-stale:{label}")
+                    elif err4 not in ("capacity", "fixed-instances", "neg-storage", "not-allowed"):
+                        # a valid edit elsewhere raises after the recovery: the model is not back to a sound state
+                        out["violations"].append({"signature": f"C15:later-edit-raises:{label}:{err4}",
+                                                  "detail": f"after {label} + revert (and a further edit of the same input), the valid edit {eo.op_label(op)} raises {err4}",
+                                                  "replay": {"spec": spec, "ops": list(ops)}})
+                        ok = False
                     if not ok or st4 != "ok":
+                        ok = False if st4 != "ok" else ok      # a refused edit ends the history
                         break
             if not ok:
                 break
